@@ -17,6 +17,7 @@ _HS_ALPHA = "{0 1 9 SP k M G T P E B x}"
 
 CHECKS = {
     "C16": dict(
+        promote=True,   # thorough bounds cost seconds: used for the quick tier as well
         level="exploration",
         runs=[
             dict(name="int", target="h_parsenum", args=["--part", "int"]),
@@ -24,7 +25,7 @@ CHECKS = {
             dict(name="float", target="h_parsenum", args=["--part", "float"]),
             dict(name="human", target="h_parsenum", args=["--part", "human"]),
         ],
-        deadline=dict(quick=90, thorough=900),
+        deadline=dict(quick=150, thorough=900),
         parallel_runs=1,
         rule=("Every string over the stated alphabet up to the stated length (plus the generated boundary numerals) is "
               "evaluated with every target type x bounds form x base x trailing flag through the real PARSENUM/PARSENUM_EX "
